@@ -1,5 +1,5 @@
 ------------------------------ MODULE Atomics ------------------------------
-(* Layer P (extension "stablerunner", host C05): the small synchronisation objects of core/syncx as
+(* Layer P (extension "syncxobjs", host C05): the small synchronisation objects of core/syncx as
    LINEARIZABLE objects -- every call takes effect at one instant between its start and its end, and the
    answers are those of the sequential object below.  One spec serves every object (field kind of the
    reset event):
@@ -10,8 +10,15 @@
                                   "An OnceGuard is used to make sure a resource can be taken once."
      "abool"    AtomicBool        cas(a, b) -> 0|1 / set(a) / true -> 0|1
                                   "CompareAndSwap compares current value with given old, if equals, set to given val."
-     "done"     DoneChan          close / isdone -> 0|1 (a non-blocking receive from Done())
+     "adur"     AtomicDuration    cas(a, b) -> 0|1 / set(a) / load -> value          (values: small integers, in ns)
+                                  "CompareAndSwap compares current value with old, if equals, set the value to val."
+     "afloat"   AtomicFloat64     cas(a, b) -> 0|1 / set(a) / load -> value / add(a) -> new value   (integral floats)
+                                  "Add adds val to current value."  atomicfloat64_test.go: 5 x 100 racing Add(1) on
+                                  100 give 600 -- no update is lost.
+     "done"     DoneChan          close / isdone -> 0|1 (a non-blocking receive from Done()) / wait (a blocking receive
+                                  from Done(): returns only once closed)
                                   "Close closes dc, it's safe to close more than once."
+                                  "Done returns a channel that can be notified on dc closed."
      "barrier"  Barrier.Guard     guard(fn): fn runs under the barrier's lock (events enter / exit inside fn);
                                   a panic of fn leaves the barrier free and reaches the caller (res 1)
      "ref"      RefResource       use -> 0 | 1 (ErrUseOfCleaned) / clean; callback event cleanRun
@@ -38,7 +45,8 @@ EXTENDS Integers, Sequences, FiniteSets, TLC
 
 VARIABLES
   kind,   \* which object
-  st,     \* its sequential state: spin/once/abool/done/barrier: 0|1;  ref: [ref, cleaned];  managed: current id (0 = none)
+  st,     \* its sequential state: spin/once/abool/done/barrier: 0|1;  adur/afloat: the value;  ref: [ref, cleaned];
+          \* managed: current id (0 = none)
   pend,   \* process |-> [op, a, b, lin, res]   calls in progress
   aux     \* ref: number of cleanRun seen; managed: set of generated ids; barrier: process inside (0 = none)
 
@@ -46,20 +54,23 @@ avars == <<kind, st, pend, aux>>
 EmptyFn == [x \in {} |-> 0]
 Put(f, x, y) == [z \in DOMAIN f \cup {x} |-> IF z = x THEN y ELSE f[z]]
 Drop(f, x) == [z \in DOMAIN f \ {x} |-> f[z]]
-Kinds == {"spin", "once", "abool", "done", "barrier", "ref", "managed"}
+Kinds == {"spin", "once", "abool", "adur", "afloat", "done", "barrier", "ref", "managed"}
 
 Ops(k) ==
   CASE k = "spin"    -> {"lock", "trylock", "unlock"}
     [] k = "once"    -> {"take", "taken"}
     [] k = "abool"   -> {"cas", "set", "true"}
-    [] k = "done"    -> {"close", "isdone"}
+    [] k = "adur"    -> {"cas", "set", "load"}
+    [] k = "afloat"  -> {"cas", "set", "load", "add"}
+    [] k = "done"    -> {"close", "isdone", "wait"}
     [] k = "barrier" -> {"guard"}
     [] k = "ref"     -> {"use", "clean"}
     [] k = "managed" -> {"take", "broken"}
 
-St0(k) ==
+\* s0: the value given to ForAtomicBool / ForAtomicDuration / ForAtomicFloat64 (ignored by the other kinds)
+St0(k, s0) ==
   CASE k = "ref" -> [ref |-> 0, cleaned |-> FALSE]
-    [] k = "abool" -> 0
+    [] k \in {"abool", "adur", "afloat"} -> s0
     [] OTHER -> 0
 Aux0(k) == IF k = "managed" THEN {} ELSE 0
 
@@ -69,6 +80,7 @@ AReset(k, s0) == kind' = k /\ st' = s0 /\ pend' = EmptyFn /\ aux' = Aux0(k)
 \* ---- the sequential objects: is the silent linearization enabled, next state, answer ----
 LinEnabled(k, s, c) ==
   CASE k = "spin" /\ c.op = "lock" -> s = 0                                   \* Lock waits while held
+    [] k = "done" /\ c.op = "wait" -> s = 1                                   \* <-Done() returns only once closed
     [] k = "barrier" -> FALSE                                                 \* enter / exit are logged
     [] k = "ref" /\ c.op = "clean" -> s.cleaned \/ s.ref # 1                  \* the cleaning Clean is the cleanRun event
     [] k = "managed" /\ c.op = "take" -> s # 0                                \* the generating Take is the gen event
@@ -78,6 +90,8 @@ LinState(k, s, c) ==
   CASE k = "spin" -> (CASE c.op = "lock" -> 1 [] c.op = "trylock" -> 1 [] c.op = "unlock" -> 0)
     [] k = "once" -> IF c.op = "take" THEN 1 ELSE s
     [] k = "abool" -> (CASE c.op = "cas" -> (IF s = c.a THEN c.b ELSE s) [] c.op = "set" -> c.a [] c.op = "true" -> s)
+    [] k \in {"adur", "afloat"} ->
+         (CASE c.op = "cas" -> (IF s = c.a THEN c.b ELSE s) [] c.op = "set" -> c.a [] c.op = "load" -> s [] c.op = "add" -> s + c.a)
     [] k = "done" -> IF c.op = "close" THEN 1 ELSE s
     [] k = "ref" -> (CASE c.op = "use" -> (IF s.cleaned THEN s ELSE [s EXCEPT !.ref = @ + 1])
                        [] c.op = "clean" -> (IF s.cleaned THEN s ELSE [s EXCEPT !.ref = @ - 1]))
@@ -88,6 +102,8 @@ LinRes(k, s, c) ==
   CASE k = "spin" -> (IF c.op = "trylock" THEN (IF s = 0 THEN 1 ELSE 0) ELSE 0)
     [] k = "once" -> (IF c.op = "take" THEN (IF s = 0 THEN 1 ELSE 0) ELSE s)
     [] k = "abool" -> (CASE c.op = "cas" -> (IF s = c.a THEN 1 ELSE 0) [] c.op = "set" -> 0 [] c.op = "true" -> s)
+    [] k \in {"adur", "afloat"} ->
+         (CASE c.op = "cas" -> (IF s = c.a THEN 1 ELSE 0) [] c.op = "set" -> 0 [] c.op = "load" -> s [] c.op = "add" -> s + c.a)
     [] k = "done" -> IF c.op = "isdone" THEN s ELSE 0
     [] k = "ref" -> IF c.op = "use" /\ s.cleaned THEN 1 ELSE 0
     [] k = "managed" -> IF c.op = "take" THEN s ELSE 0
